@@ -122,6 +122,22 @@ impl Ctx {
         self.counters.lock().unwrap().get(key).copied().unwrap_or(0)
     }
 
+    /// Takes the collected violations out (used by worker processes that hand them to their parent).
+    pub fn drain_violations(&self) -> Vec<(Violation, u64)> {
+        std::mem::take(&mut *self.violations.lock().unwrap()).into_values().collect()
+    }
+
+    /// Records a violation class with a given number of occurrences (merging a worker's report).
+    pub fn violation_n(&self, signature: impl Into<String>, what: impl Into<String>, replay: Value, rank: u64, n: u64) {
+        let signature = signature.into();
+        self.violation(signature.clone(), what, replay, rank);
+        if n > 1 {
+            if let Some((_, c)) = self.violations.lock().unwrap().get_mut(&signature) {
+                *c += n - 1;
+            }
+        }
+    }
+
     pub fn n_violation_classes(&self) -> usize {
         self.violations.lock().unwrap().len()
     }
